@@ -2,6 +2,7 @@
 from prysm.mathops import np
 
 from .jacobi import (
+    _as_sequence,
     jacobi,
     jacobi_der,
     jacobi_seq,
@@ -131,7 +132,7 @@ def cheby2_seq(ns, x):
     # seq is (N, *x.shape)
     # return of jacobi_seq on ones(1) is (N,1); squeeze it to (N,) so that
     # the division by (ns+1) does not broadcast to (N,N)
-    ns = np.asarray(ns)
+    ns = np.asarray(_as_sequence(ns))  # any iterable of orders, also a generator
     cs = (ns+1)/np.squeeze(jacobi_seq(ns, .5, .5, np.ones(1, dtype=x.dtype)))
     seq = jacobi_seq(ns, .5, .5, x)
     # cs is (N,); give it one trailing axis per coordinate axis so that it scales mode k by cs[k]
@@ -173,7 +174,7 @@ def cheby2_der_seq(ns, x):
         return has shape (5, 100, 100)
 
     """
-    ns = np.asarray(ns)
+    ns = np.asarray(_as_sequence(ns))  # any iterable of orders, also a generator
     cs = (ns + 1)/np.squeeze(jacobi_seq(ns, .5, .5, np.ones(1, dtype=x.dtype)))
     seq = jacobi_der_seq(ns, .5, .5, x)
     # cs is (N,); give it one trailing axis per coordinate axis so that it scales mode k by cs[k]
@@ -299,7 +300,7 @@ def cheby4_seq(ns, x):
         return has shape (5, 100, 100)
 
     """
-    ns = np.asarray(ns)
+    ns = np.asarray(_as_sequence(ns))  # any iterable of orders, also a generator
     cs = (2*ns+1)/np.squeeze(jacobi_seq(ns, .5, -.5, np.ones(1, dtype=x.dtype)))
     seq = jacobi_seq(ns, .5, -.5, x)
     # cs is (N,); give it one trailing axis per coordinate axis so that it scales mode k by cs[k]
@@ -341,7 +342,7 @@ def cheby4_der_seq(ns, x):
         return has shape (5, 100, 100)
 
     """
-    ns = np.asarray(ns)
+    ns = np.asarray(_as_sequence(ns))  # any iterable of orders, also a generator
     cs = (2*ns+1)/np.squeeze(jacobi_seq(ns, .5, -.5, np.ones(1, dtype=x.dtype)))
     seq = jacobi_der_seq(ns, .5, -.5, x)
     # cs is (N,); give it one trailing axis per coordinate axis so that it scales mode k by cs[k]
